@@ -2119,7 +2119,9 @@ impl Melda {
                                             .ok_or_else(|| anyhow!("expecting_digest_string"))?;
                                         let prev = Revision::from(prev)?;
                                         let r = Revision::new(
-                                            prev.index() + 1,
+                                            prev.index()
+                                        .checked_add(1)
+                                        .ok_or_else(|| anyhow!("revision_index_overflow"))?,
                                             digest.to_string(),
                                             Some(&prev),
                                         );
@@ -2440,7 +2442,9 @@ impl Melda {
                                     .ok_or_else(|| anyhow!("expecting_digest_string"))?;
                                 let prev = Revision::from(prev)?;
                                 let r = Revision::new(
-                                    prev.index() + 1,
+                                    prev.index()
+                                        .checked_add(1)
+                                        .ok_or_else(|| anyhow!("revision_index_overflow"))?,
                                     digest.to_string(),
                                     Some(&prev),
                                 );
